@@ -57,6 +57,24 @@ fn main() {
         println!("{tm}");
         return;
     }
+    if cmd == "eval2" {
+        // exploration helper: freeze the first file as "lib.star", evaluate the second with load("lib.star", ...)
+        let lib = std::fs::read_to_string(&args[2]).unwrap();
+        let main = std::fs::read_to_string(&args[3]).unwrap();
+        let (o, f) = sl::run_and_freeze("lib.star", &lib, &sl::RunCfg::default(), &[]);
+        println!("lib: {:?}", o.result.map_err(|e| e.full));
+        if let Some(f) = f {
+            let out = sl::run_src("main.star", &main, &sl::RunCfg::default(), &[("lib.star", &f)]);
+            for t in &out.tx {
+                println!("tx: {}", engine::truncate(t, 300));
+            }
+            match &out.result {
+                Ok(v) => println!("ok: {}", engine::truncate(v, 300)),
+                Err(e) => println!("err[{}]: {}", e.kind, e.msg),
+            }
+        }
+        return;
+    }
     if cmd == "parse" {
         // exploration helper: run the C05 predicate on a file
         let src = std::fs::read_to_string(&args[2]).unwrap();
